@@ -54,8 +54,10 @@ type parser struct {
 	s     string
 	pos   int
 	blank bool // the term just parsed was wrapped in B(…): a blank `_` struct field
+	setC  func(fullName string) // marks a named type as having C background (//llgo:type C)
 	pkg *types.Package
 	nm  map[string]*types.Named
+	al  map[string]*types.Alias
 }
 
 func (p *parser) fail(msg string) { panic("parse: " + msg + " at " + strconv.Itoa(p.pos) + " in " + p.s) }
@@ -111,6 +113,33 @@ func (p *parser) term() types.Type {
 		p.expect(')')
 		p.blank = true
 		return e
+	case "L": // L(t): an alias declaration `type A = t`
+		p.expect('(')
+		e := p.term()
+		p.expect(')')
+		key := p.s[st:p.pos]
+		if a, ok := p.al[key]; ok {
+			return a
+		}
+		a := types.NewAlias(types.NewTypeName(token.NoPos, p.pkg, "L"+strconv.Itoa(len(p.al)), nil), e)
+		p.al[key] = a
+		return a
+	case "NC": // NC(t): a named type declared with `//llgo:type C` (C background: raw layout, no closure conversion)
+		p.expect('(')
+		e := p.term()
+		p.expect(')')
+		key := p.s[st:p.pos]
+		if n, ok := p.nm[key]; ok {
+			return n
+		}
+		if en, ok := e.(*types.Named); ok {
+			e = en.Underlying()
+		}
+		name := "NC" + strconv.Itoa(len(p.nm))
+		n := types.NewNamed(types.NewTypeName(token.NoPos, p.pkg, name, nil), e, nil)
+		p.setC(p.pkg.Path() + "." + name)
+		p.nm[key] = n
+		return n
 	case "P", "S", "C", "N":
 		p.expect('(')
 		e := p.term()
@@ -208,7 +237,8 @@ func target(name string) *tgt {
 	}
 	sz := prog.TypeSizes(std)
 	t := &tgt{prog: prog, sizes: sz, ab: ssa.VerifABI(prog), // the compiler's own builder; its Sizes is the same wrapper
-		par: &parser{pkg: types.NewPackage("vp08/"+parts[1], "vp"), nm: map[string]*types.Named{}}}
+		par: &parser{pkg: types.NewPackage("vp08/"+parts[1], "vp"), nm: map[string]*types.Named{}, al: map[string]*types.Alias{},
+			setC: func(full string) { prog.SetTypeBackground(full, ssa.InC) }}}
 	targets[name] = t
 	return t
 }
